@@ -203,10 +203,11 @@ class RepeatedNodeWrapper(MutableSequence[_M]):
             self._del_tokens(r.start, r.stop)
             self._insert_tokens(
                 r.start, values, len(self._repeated.items) - len(r), separators_before_last)
-            self._repeated.items[indexes.slice_from_range(r)] = values
+            stop = max(r.start, r.stop)
+            self._repeated.items[r.start:stop] = values
             for value in values:
                 value.reattach(self._repeated.token_store)
-            self._notify_splice(r.start, r.stop, values)
+            self._notify_splice(r.start, stop, values)
         else:
             if len(r) != len(values):
                 raise ValueError(f'attempt to assign sequence of size {len(values)} to extended slice of size {len(r)}')
